@@ -18,7 +18,9 @@ RULE = ('Hypothesis draws two series (regimes: exact lattice values / finite flo
         'generator drives a child interpreter in which numpy cannot be imported. A case is non-trivial when '
         'both lengths are >= 2 and at least one of {window narrower than the longer series, psi != 0, penalty '
         '> 0, max_step set, non-default inner distance, unequal lengths} holds; distinctness by the hash of the '
-        'whole case.')
+        'whole case. History leg: 2-4 calls in a row with different inner distances (two class-form objects, two instances '
+        'of one class with different parameters, a subclass instance, the two names), each compared with the reference; '
+        'non-trivial when two different user-supplied objects occur.')
 ASSUMPTIONS = ['series values are finite doubles with |x| <= 1e3 (no overflow of squares/sums)',
                'lengths <= 14; every band/psi/buffer mechanism is a function of (l1,l2,window,psi) and is '
                'exercised below that size',
@@ -120,6 +122,48 @@ def run_nonumpy(case):
     return res
 
 
+HIST_INNERS = ('squared euclidean', 'euclidean', 'custom_cubic', 'custom_abs', 'custom_pow1.5', 'custom_pow4',
+               'custom_double')
+
+
+@st.composite
+def _history(draw):
+    """2-4 calls in a row, each with its own inner distance: user-supplied objects of different classes, and different
+    instances of one class, must not influence each other (nothing may be remembered between calls)."""
+    n = draw(st.integers(2, 4))
+    inners = draw(st.lists(st.sampled_from(HIST_INNERS), min_size=n, max_size=n))
+    calls = []
+    for k in range(n):
+        c = draw(gen.dtw_case(max_len=5, inners=(inners[k],), with_mld=False))
+        c['s1'] = [max(-4.0, min(4.0, x)) for x in c['s1']]      # |x-y|**4 stays far from overflow / cancellation
+        c['s2'] = [max(-4.0, min(4.0, x)) for x in c['s2']]
+        if c['max_step'] is not None:
+            c['max_step'] = None if c['regime'][0] != 'L' else c['max_step']
+        calls.append(c)
+    return {'calls': calls}
+
+
+def run_history(case):
+    from dtaidistance import dtw
+    res = Res()
+    kinds = [c['inner'] for c in case['calls']]
+    custom = [k for k in kinds if k.startswith('custom')]
+    res.nontrivial = len(set(custom)) >= 2
+    if len({k for k in custom if k.startswith('custom_pow')}) >= 2:
+        res.cls('two-instances-of-one-class')
+    if 'custom_cubic' in custom and 'custom_abs' in custom:
+        res.cls('two-class-form-objects')
+    for k, c in enumerate(case['calls']):
+        exp = _oracle(c)
+        got, exc = libcall(dtw.distance, list(c['s1']), list(c['s2']), use_c=False, **lib_kwargs(c))
+        if exc:
+            res.fail('history:' + exc, 'call %d (%s) raised after calls with %r; reference=%r' % (k, c['inner'], kinds[:k], exp))
+        elif not ref.close(got, exp):
+            res.fail('history:value', 'call %d with inner distance %s after calls with %r: dtw.distance=%r reference=%r'
+                     % (k, c['inner'], kinds[:k], got, exp))
+    return res
+
+
 def _strategy(max_len, containers):
     @st.composite
     def s(draw):
@@ -136,7 +180,8 @@ def legs(tier):
     a.essential = {'psi*window': 0.02, 'psi*max_step': 0.02, 'unequal*window': 0.02,
                    'rolling-buffer-rolls': 0.02, 'result=inf': 0.02}
     b = Leg('py-nonumpy', _strategy(ml, ['list', 'array', 'tuple']), run_nonumpy, 4000, 48000)
-    return [a, b]
+    c = Leg('inner-history', _history(), run_history, 4000, 40000)
+    return [a, b, c]
 
 
 # ---- regions of open known findings (KNOWN_FINDINGS.jsonl) ---------------------------------------------
